@@ -26,6 +26,9 @@ requests (one per line)                                   reply
   dset <path> <name> <wf> <empty> <replace>                rule.style.setProperty(name, value, replace=…) / style[name] = value
   dsetobj <path> <name>                                    rule.style.setProperty(Property(name, value))
   ddel <path> <name>                                       rule.style.removeProperty(name) / del style[name]
+  rawdel <path|-> <int>                                    del sheet.cssRules[i] (`-`) / del rule.cssRules[i]
+  rawins <spec> <int>                                      sheet.cssRules.insert(i, rule)
+  reins <path> <index|N>                                   sheet.insertRule(<the rule object at path>, index)
   dshareprop <path> <path> <i>                             rule.style.setProperty(<i-th Property object of the other rule's block>)
 
 items = `<name cps>:<wellformed 0|1>` joined by `,` (or `-`)
@@ -229,6 +232,15 @@ def decDOp (ws : List String) : Option DOp :=
   | ["dshareprop", p, q, i] => match decPath p, decPath q, i.toNat? with
     | some p, some q, some i => some (.sharePropObj p q i)
     | _, _, _ => none
+  | ["rawdel", p, i] => match (if p == "-" then some [] else decPath p), decInt i with
+    | some p, some i => some (.rawDelete p i)
+    | _, _ => none
+  | ["rawins", sp, i] => match decSpec sp, decInt i with
+    | some sp, some i => some (.rawInsert sp i)
+    | _, _ => none
+  | ["reins", p, i] => match decPath p, decIdx i with
+    | some p, some i => some (.reinsert p i)
+    | _, _ => none
   | ["ddel", p, n] => match decPath p, decCps n with
     | some p, some n => some (.removeProp p n)
     | _, _ => none
